@@ -22,8 +22,8 @@ MUTANTS = [
          new="        up_wave = up_wave[np.newaxis, :] * np.sort(up_red)[::-1][:, np.newaxis]  # 1d\n",
          why="array reduction factors assumed to decrease with depth (rows get another row's factor otherwise)"),
     dict(id="c19-rows-sorted", prop="C19", file="eqsig/surface.py",
-         old="[np.newaxis, :] - shifts[:, np.newaxis]  # TODO: not needed if shifts is scalar\n    down_waves = np.interp(dshifted, np.arange(asig.npts), asig.values, left=0, right=0)\n    if hasattr(up_red, '__len__'):\n        up_wave = up_wave[np.newaxis, :] * up_red[:, np.newaxis]  # 1d\n        down_waves *= down_red[:, np.newaxis]\n    else:\n        up_wave = up_wave * up_red  # 1d  # TODO: may need to increase dimensions here\n        down_waves *= down_red\n    if nodal:\n        acc_series = - down_waves + up_wave\n    else:\n        acc_series = down_waves + up_wave\n    velocity",
-         new="[np.newaxis, :] - np.sort(shifts)[:, np.newaxis]  # TODO: not needed if shifts is scalar\n    down_waves = np.interp(dshifted, np.arange(asig.npts), asig.values, left=0, right=0)\n    if hasattr(up_red, '__len__'):\n        up_wave = up_wave[np.newaxis, :] * up_red[:, np.newaxis]  # 1d\n        down_waves *= down_red[:, np.newaxis]\n    else:\n        up_wave = up_wave * up_red  # 1d  # TODO: may need to increase dimensions here\n        down_waves *= down_red\n    if nodal:\n        acc_series = - down_waves + up_wave\n    else:\n        acc_series = down_waves + up_wave\n    velocity",
+         old="[np.newaxis, :] - shifts[:, np.newaxis]  # TODO: not needed if shifts is scalar\n    down_waves = np.interp(dshifted, np.arange(asig.npts), asig.values, left=0, right=0)\n    if hasattr(up_red, '__len__') or hasattr(down_red, '__len__'):  # lists, or one array and one scalar\n        up_red = np.asarray(up_red) * np.ones(len(travel_times))\n        down_red = np.asarray(down_red) * np.ones(len(travel_times))\n    if hasattr(up_red, '__len__'):\n        up_wave = up_wave[np.newaxis, :] * up_red[:, np.newaxis]  # 1d\n        down_waves *= down_red[:, np.newaxis]\n    else:\n        up_wave = up_wave * up_red  # 1d  # TODO: may need to increase dimensions here\n        down_waves *= down_red\n    if nodal:\n        acc_series = - down_waves + up_wave\n    else:\n        acc_series = down_waves + up_wave\n    velocity",
+         new="[np.newaxis, :] - np.sort(shifts)[:, np.newaxis]  # TODO: not needed if shifts is scalar\n    down_waves = np.interp(dshifted, np.arange(asig.npts), asig.values, left=0, right=0)\n    if hasattr(up_red, '__len__') or hasattr(down_red, '__len__'):  # lists, or one array and one scalar\n        up_red = np.asarray(up_red) * np.ones(len(travel_times))\n        down_red = np.asarray(down_red) * np.ones(len(travel_times))\n    if hasattr(up_red, '__len__'):\n        up_wave = up_wave[np.newaxis, :] * up_red[:, np.newaxis]  # 1d\n        down_waves *= down_red[:, np.newaxis]\n    else:\n        up_wave = up_wave * up_red  # 1d  # TODO: may need to increase dimensions here\n        down_waves *= down_red\n    if nodal:\n        acc_series = - down_waves + up_wave\n    else:\n        acc_series = down_waves + up_wave\n    velocity",
          why="row-wise consistency: rows computed for the sorted travel times (the suite only passes increasing ones)"),
     dict(id="c19-trapz-to-rect", prop="C19", file="eqsig/surface.py",
          old="    velocity = cumulative_trapezoid(acc_series, dx=asig.dt, initial=0, axis=1)\n",
@@ -58,8 +58,8 @@ MUTANTS = [
          new="        acc_series = down_waves - up_wave\n    acc_series = trim_to_length",
          why="get_time_shift_motions (not covered by the suite at all): anti-nodal sign"),
     dict(id="c19-motions-maxshift", prop="C19", file="eqsig/surface.py",
-         old="    max_shift = int(np.max(shifts))\n    up_wave = np.pad(asig.values, (0, max_shift), mode='constant', constant_values=0)\n    dshifted = np.arange(asig.npts + max_shift)[np.newaxis, :] - shifts[:, np.newaxis]  # TODO: not needed if shifts is scalar\n    down_waves = np.interp(dshifted, np.arange(asig.npts), asig.values, left=0, right=0)\n    if hasattr(up_red, '__len__'):\n        up_wave = up_wave[np.newaxis, :] * up_red[:, np.newaxis]  # 1d\n        down_waves *= down_red[:, np.newaxis]\n    else:\n        up_wave = up_wave * up_red  # 1d  # TODO: may need to increase dimensions here\n        down_waves *= down_red\n    if nodal:\n        acc_series = - down_waves + up_wave\n    else:\n        acc_series = down_waves + up_wave\n    acc_series = trim",
-         new="    max_shift = int(np.ceil(np.max(shifts)))\n    up_wave = np.pad(asig.values, (0, max_shift), mode='constant', constant_values=0)\n    dshifted = np.arange(asig.npts + max_shift)[np.newaxis, :] - shifts[:, np.newaxis]  # TODO: not needed if shifts is scalar\n    down_waves = np.interp(dshifted, np.arange(asig.npts), asig.values, left=0, right=0)\n    if hasattr(up_red, '__len__'):\n        up_wave = up_wave[np.newaxis, :] * up_red[:, np.newaxis]  # 1d\n        down_waves *= down_red[:, np.newaxis]\n    else:\n        up_wave = up_wave * up_red  # 1d  # TODO: may need to increase dimensions here\n        down_waves *= down_red\n    if nodal:\n        acc_series = - down_waves + up_wave\n    else:\n        acc_series = down_waves + up_wave\n    acc_series = trim",
+         old="    max_shift = int(np.max(shifts))\n    up_wave = np.pad(asig.values, (0, max_shift), mode='constant', constant_values=0)\n    dshifted = np.arange(asig.npts + max_shift)[np.newaxis, :] - shifts[:, np.newaxis]  # TODO: not needed if shifts is scalar\n    down_waves = np.interp(dshifted, np.arange(asig.npts), asig.values, left=0, right=0)\n    if hasattr(up_red, '__len__') or hasattr(down_red, '__len__'):  # lists, or one array and one scalar\n        up_red = np.asarray(up_red) * np.ones(len(travel_times))\n        down_red = np.asarray(down_red) * np.ones(len(travel_times))\n    if hasattr(up_red, '__len__'):\n        up_wave = up_wave[np.newaxis, :] * up_red[:, np.newaxis]  # 1d\n        down_waves *= down_red[:, np.newaxis]\n    else:\n        up_wave = up_wave * up_red  # 1d  # TODO: may need to increase dimensions here\n        down_waves *= down_red\n    if nodal:\n        acc_series = - down_waves + up_wave\n    else:\n        acc_series = down_waves + up_wave\n    acc_series = trim",
+         new="    max_shift = int(np.ceil(np.max(shifts)))\n    up_wave = np.pad(asig.values, (0, max_shift), mode='constant', constant_values=0)\n    dshifted = np.arange(asig.npts + max_shift)[np.newaxis, :] - shifts[:, np.newaxis]  # TODO: not needed if shifts is scalar\n    down_waves = np.interp(dshifted, np.arange(asig.npts), asig.values, left=0, right=0)\n    if hasattr(up_red, '__len__') or hasattr(down_red, '__len__'):  # lists, or one array and one scalar\n        up_red = np.asarray(up_red) * np.ones(len(travel_times))\n        down_red = np.asarray(down_red) * np.ones(len(travel_times))\n    if hasattr(up_red, '__len__'):\n        up_wave = up_wave[np.newaxis, :] * up_red[:, np.newaxis]  # 1d\n        down_waves *= down_red[:, np.newaxis]\n    else:\n        up_wave = up_wave * up_red  # 1d  # TODO: may need to increase dimensions here\n        down_waves *= down_red\n    if nodal:\n        acc_series = - down_waves + up_wave\n    else:\n        acc_series = down_waves + up_wave\n    acc_series = trim",
          why="get_time_shift_motions: untrimmed length npts+ceil instead of npts+floor of the largest delay"),
     dict(id="c19-energy-1e9", prop="C19", file="eqsig/surface.py",
          old="    e = 0.5 * velocity * np.abs(velocity)\n    e = trim_to_length",
@@ -70,8 +70,8 @@ MUTANTS = [
          new="        up_wave = up_wave * 1.0  # 1d  # TODO: may need to increase dimensions here\n",
          why="scalar upward reduction ignored (the suite always passes up_red=1)"),
     dict(id="c19-half-sample-weight", prop="C19", file="eqsig/surface.py",
-         old="[np.newaxis, :] - shifts[:, np.newaxis]  # TODO: not needed if shifts is scalar\n    down_waves = np.interp(dshifted, np.arange(asig.npts), asig.values, left=0, right=0)\n    if hasattr(up_red, '__len__'):\n        up_wave = up_wave[np.newaxis, :] * up_red[:, np.newaxis]  # 1d\n        down_waves *= down_red[:, np.newaxis]\n    else:\n        up_wave = up_wave * up_red  # 1d  # TODO: may need to increase dimensions here\n        down_waves *= down_red\n    if nodal:\n        acc_series = - down_waves + up_wave\n    else:\n        acc_series = down_waves + up_wave\n    velocity",
-         new="[np.newaxis, :] - np.where(shifts % 1 == 0.5, shifts + 1e-6, shifts)[:, np.newaxis]  # TODO: not needed if shifts is scalar\n    down_waves = np.interp(dshifted, np.arange(asig.npts), asig.values, left=0, right=0)\n    if hasattr(up_red, '__len__'):\n        up_wave = up_wave[np.newaxis, :] * up_red[:, np.newaxis]  # 1d\n        down_waves *= down_red[:, np.newaxis]\n    else:\n        up_wave = up_wave * up_red  # 1d  # TODO: may need to increase dimensions here\n        down_waves *= down_red\n    if nodal:\n        acc_series = - down_waves + up_wave\n    else:\n        acc_series = down_waves + up_wave\n    velocity",
+         old="[np.newaxis, :] - shifts[:, np.newaxis]  # TODO: not needed if shifts is scalar\n    down_waves = np.interp(dshifted, np.arange(asig.npts), asig.values, left=0, right=0)\n    if hasattr(up_red, '__len__') or hasattr(down_red, '__len__'):  # lists, or one array and one scalar\n        up_red = np.asarray(up_red) * np.ones(len(travel_times))\n        down_red = np.asarray(down_red) * np.ones(len(travel_times))\n    if hasattr(up_red, '__len__'):\n        up_wave = up_wave[np.newaxis, :] * up_red[:, np.newaxis]  # 1d\n        down_waves *= down_red[:, np.newaxis]\n    else:\n        up_wave = up_wave * up_red  # 1d  # TODO: may need to increase dimensions here\n        down_waves *= down_red\n    if nodal:\n        acc_series = - down_waves + up_wave\n    else:\n        acc_series = down_waves + up_wave\n    velocity",
+         new="[np.newaxis, :] - np.where(shifts % 1 == 0.5, shifts + 1e-6, shifts)[:, np.newaxis]  # TODO: not needed if shifts is scalar\n    down_waves = np.interp(dshifted, np.arange(asig.npts), asig.values, left=0, right=0)\n    if hasattr(up_red, '__len__') or hasattr(down_red, '__len__'):  # lists, or one array and one scalar\n        up_red = np.asarray(up_red) * np.ones(len(travel_times))\n        down_red = np.asarray(down_red) * np.ones(len(travel_times))\n    if hasattr(up_red, '__len__'):\n        up_wave = up_wave[np.newaxis, :] * up_red[:, np.newaxis]  # 1d\n        down_waves *= down_red[:, np.newaxis]\n    else:\n        up_wave = up_wave * up_red  # 1d  # TODO: may need to increase dimensions here\n        down_waves *= down_red\n    if nodal:\n        acc_series = - down_waves + up_wave\n    else:\n        acc_series = down_waves + up_wave\n    velocity",
          why="half-sample delays (travel time an odd multiple of dt/4) interpolated with a weight off by 1e-6"),
     # ---- C19: array shifting helpers (eqsig/fns/time_shift.py)
     dict(id="c19-put-allneg", prop="C19", file="eqsig/fns/time_shift.py",
@@ -86,8 +86,8 @@ MUTANTS = [
          old="        return -a1 + a0\n", new="        return a1 - a0\n",
          why="jtype='sub' (never exercised by the suite): shifted minus original instead of original minus shifted"),
     dict(id="c19-join-sig-round", prop="C19", file="eqsig/fns/time_shift.py",
-         old="    shifts = np.array(time_shifts / sig.dt, dtype=int)\n",
-         new="    shifts = np.array(np.round(time_shifts / sig.dt), dtype=int)\n",
+         old="    shifts = np.array(np.asarray(time_shifts) / sig.dt, dtype=int)\n",
+         new="    shifts = np.array(np.round(np.asarray(time_shifts) / sig.dt), dtype=int)\n",
          why="join_sig_w_time_shift (not covered by the suite): floor -> round of t/dt"),
     dict(id="c19-join-pad-short", prop="C19", file="eqsig/fns/time_shift.py",
          old="    a1 = put_array_in_2d_array(values, shifts)\n    if jtype == 'add':\n        return a1 + a0\n",
@@ -163,8 +163,8 @@ MUTANTS += [
          new="    a1 = put_array_in_2d_array(values, shifts)\n    if a1.size > 250000:\n        a1 = a1.astype(np.float32)\n",
          why="window: joined matrix above 2.5e5 elements built in single precision"),
     dict(id="c19-win-stale-upwave-cache-3000", prop="C19", file="eqsig/surface.py",
-         old="    max_shift = int(np.max(shifts))\n    up_wave = np.pad(asig.values, (0, max_shift), mode='constant', constant_values=0)\n    dshifted = np.arange(asig.npts + max_shift)[np.newaxis, :] - shifts[:, np.newaxis]  # TODO: not needed if shifts is scalar\n    down_waves = np.interp(dshifted, np.arange(asig.npts), asig.values, left=0, right=0)\n    if hasattr(up_red, '__len__'):\n        up_wave = up_wave[np.newaxis, :] * up_red[:, np.newaxis]  # 1d\n        down_waves *= down_red[:, np.newaxis]\n    else:\n        up_wave = up_wave * up_red  # 1d  # TODO: may need to increase dimensions here\n        down_waves *= down_red\n    if nodal:\n        acc_series = - down_waves + up_wave\n    else:\n        acc_series = down_waves + up_wave\n    velocity",
-         new="    max_shift = int(np.max(shifts))\n    vals = asig.values\n    if 3000 <= asig.npts <= 60000:  # mid-size records: keep the float copy on the signal object\n        vals = getattr(asig, '_se_vals', None)\n        if vals is None or len(vals) != asig.npts:\n            vals = np.array(asig.values, dtype=float)\n            asig._se_vals = vals\n    up_wave = np.pad(vals, (0, max_shift), mode='constant', constant_values=0)\n    dshifted = np.arange(asig.npts + max_shift)[np.newaxis, :] - shifts[:, np.newaxis]  # TODO: not needed if shifts is scalar\n    down_waves = np.interp(dshifted, np.arange(asig.npts), asig.values, left=0, right=0)\n    if hasattr(up_red, '__len__'):\n        up_wave = up_wave[np.newaxis, :] * up_red[:, np.newaxis]  # 1d\n        down_waves *= down_red[:, np.newaxis]\n    else:\n        up_wave = up_wave * up_red  # 1d  # TODO: may need to increase dimensions here\n        down_waves *= down_red\n    if nodal:\n        acc_series = - down_waves + up_wave\n    else:\n        acc_series = down_waves + up_wave\n    velocity",
+         old="    max_shift = int(np.max(shifts))\n    up_wave = np.pad(asig.values, (0, max_shift), mode='constant', constant_values=0)\n    dshifted = np.arange(asig.npts + max_shift)[np.newaxis, :] - shifts[:, np.newaxis]  # TODO: not needed if shifts is scalar\n    down_waves = np.interp(dshifted, np.arange(asig.npts), asig.values, left=0, right=0)\n    if hasattr(up_red, '__len__') or hasattr(down_red, '__len__'):  # lists, or one array and one scalar\n        up_red = np.asarray(up_red) * np.ones(len(travel_times))\n        down_red = np.asarray(down_red) * np.ones(len(travel_times))\n    if hasattr(up_red, '__len__'):\n        up_wave = up_wave[np.newaxis, :] * up_red[:, np.newaxis]  # 1d\n        down_waves *= down_red[:, np.newaxis]\n    else:\n        up_wave = up_wave * up_red  # 1d  # TODO: may need to increase dimensions here\n        down_waves *= down_red\n    if nodal:\n        acc_series = - down_waves + up_wave\n    else:\n        acc_series = down_waves + up_wave\n    velocity",
+         new="    max_shift = int(np.max(shifts))\n    vals = asig.values\n    if 3000 <= asig.npts <= 60000:  # mid-size records: keep the float copy on the signal object\n        vals = getattr(asig, '_se_vals', None)\n        if vals is None or len(vals) != asig.npts:\n            vals = np.array(asig.values, dtype=float)\n            asig._se_vals = vals\n    up_wave = np.pad(vals, (0, max_shift), mode='constant', constant_values=0)\n    dshifted = np.arange(asig.npts + max_shift)[np.newaxis, :] - shifts[:, np.newaxis]  # TODO: not needed if shifts is scalar\n    down_waves = np.interp(dshifted, np.arange(asig.npts), asig.values, left=0, right=0)\n    if hasattr(up_red, '__len__') or hasattr(down_red, '__len__'):  # lists, or one array and one scalar\n        up_red = np.asarray(up_red) * np.ones(len(travel_times))\n        down_red = np.asarray(down_red) * np.ones(len(travel_times))\n    if hasattr(up_red, '__len__'):\n        up_wave = up_wave[np.newaxis, :] * up_red[:, np.newaxis]  # 1d\n        down_waves *= down_red[:, np.newaxis]\n    else:\n        up_wave = up_wave * up_red  # 1d  # TODO: may need to increase dimensions here\n        down_waves *= down_red\n    if nodal:\n        acc_series = - down_waves + up_wave\n    else:\n        acc_series = down_waves + up_wave\n    velocity",
          why="window: cache kept only for records of 3000..60000 samples, stale after reset_values with a record of the same length"),
     dict(id="c19-win-rowblock-correct-64", prop="C19", file="eqsig/surface.py", expect="survive",
          old="    e = 0.5 * velocity * np.abs(velocity)\n    e = trim_to_length",
@@ -184,8 +184,8 @@ MUTANTS += [
          new="    outs = np.zeros((len(surf_to_depth_shifts), npts), dtype=np.float32 if npts > 4096 else float)\n",
          why="audit C: trimmed output in single precision for records longer than 4096 samples"),
     dict(id="c19-audit-C2-motions-floor-8", prop="C19", file="eqsig/surface.py",
-         old="    shifts = 2 * travel_times / asig.dt\n    max_shift = int(np.max(shifts))\n    up_wave = np.pad(asig.values, (0, max_shift), mode='constant', constant_values=0)\n    dshifted = np.arange(asig.npts + max_shift)[np.newaxis, :] - shifts[:, np.newaxis]  # TODO: not needed if shifts is scalar\n    down_waves = np.interp(dshifted, np.arange(asig.npts), asig.values, left=0, right=0)\n    if hasattr(up_red, '__len__'):\n        up_wave = up_wave[np.newaxis, :] * up_red[:, np.newaxis]  # 1d\n        down_waves *= down_red[:, np.newaxis]\n    else:\n        up_wave = up_wave * up_red  # 1d  # TODO: may need to increase dimensions here\n        down_waves *= down_red\n    if nodal:\n        acc_series = - down_waves + up_wave\n    else:\n        acc_series = down_waves + up_wave\n    acc_series = trim",
-         new="    shifts = 2 * travel_times / asig.dt\n    if len(shifts) > 8:\n        shifts = np.floor(shifts)\n    max_shift = int(np.max(shifts))\n    up_wave = np.pad(asig.values, (0, max_shift), mode='constant', constant_values=0)\n    dshifted = np.arange(asig.npts + max_shift)[np.newaxis, :] - shifts[:, np.newaxis]  # TODO: not needed if shifts is scalar\n    down_waves = np.interp(dshifted, np.arange(asig.npts), asig.values, left=0, right=0)\n    if hasattr(up_red, '__len__'):\n        up_wave = up_wave[np.newaxis, :] * up_red[:, np.newaxis]  # 1d\n        down_waves *= down_red[:, np.newaxis]\n    else:\n        up_wave = up_wave * up_red  # 1d  # TODO: may need to increase dimensions here\n        down_waves *= down_red\n    if nodal:\n        acc_series = - down_waves + up_wave\n    else:\n        acc_series = down_waves + up_wave\n    acc_series = trim",
+         old="    shifts = 2 * travel_times / asig.dt\n    max_shift = int(np.max(shifts))\n    up_wave = np.pad(asig.values, (0, max_shift), mode='constant', constant_values=0)\n    dshifted = np.arange(asig.npts + max_shift)[np.newaxis, :] - shifts[:, np.newaxis]  # TODO: not needed if shifts is scalar\n    down_waves = np.interp(dshifted, np.arange(asig.npts), asig.values, left=0, right=0)\n    if hasattr(up_red, '__len__') or hasattr(down_red, '__len__'):  # lists, or one array and one scalar\n        up_red = np.asarray(up_red) * np.ones(len(travel_times))\n        down_red = np.asarray(down_red) * np.ones(len(travel_times))\n    if hasattr(up_red, '__len__'):\n        up_wave = up_wave[np.newaxis, :] * up_red[:, np.newaxis]  # 1d\n        down_waves *= down_red[:, np.newaxis]\n    else:\n        up_wave = up_wave * up_red  # 1d  # TODO: may need to increase dimensions here\n        down_waves *= down_red\n    if nodal:\n        acc_series = - down_waves + up_wave\n    else:\n        acc_series = down_waves + up_wave\n    acc_series = trim",
+         new="    shifts = 2 * travel_times / asig.dt\n    if len(shifts) > 8:\n        shifts = np.floor(shifts)\n    max_shift = int(np.max(shifts))\n    up_wave = np.pad(asig.values, (0, max_shift), mode='constant', constant_values=0)\n    dshifted = np.arange(asig.npts + max_shift)[np.newaxis, :] - shifts[:, np.newaxis]  # TODO: not needed if shifts is scalar\n    down_waves = np.interp(dshifted, np.arange(asig.npts), asig.values, left=0, right=0)\n    if hasattr(up_red, '__len__') or hasattr(down_red, '__len__'):  # lists, or one array and one scalar\n        up_red = np.asarray(up_red) * np.ones(len(travel_times))\n        down_red = np.asarray(down_red) * np.ones(len(travel_times))\n    if hasattr(up_red, '__len__'):\n        up_wave = up_wave[np.newaxis, :] * up_red[:, np.newaxis]  # 1d\n        down_waves *= down_red[:, np.newaxis]\n    else:\n        up_wave = up_wave * up_red  # 1d  # TODO: may need to increase dimensions here\n        down_waves *= down_red\n    if nodal:\n        acc_series = - down_waves + up_wave\n    else:\n        acc_series = down_waves + up_wave\n    acc_series = trim",
          why="audit C: get_time_shift_motions truncates fractional delays for batches of more than 8 travel times"),
     dict(id="c19-audit-D-reductions-clipped", prop="C19", file="eqsig/surface.py", count=2,
          old="    shifts = 2 * travel_times / asig.dt\n",
@@ -207,3 +207,19 @@ MUTANTS += [
 for _m in MUTANTS:
     if _m["id"] in ("c19-trapz-to-rect", "c19-join-sig-round", "c19-start-no-extras", "c19-motions-maxshift"):
         _m["expect"] = "survive"
+
+# ---- reverts of the repairs of the argument-form findings C19-F1 (2169320) and C19-F2 (c655c72)
+MUTANTS += [
+    dict(id="c19-revert-F1-join-sig-list-times", prop="C19", file="eqsig/fns/time_shift.py",
+         old="    shifts = np.array(np.asarray(time_shifts) / sig.dt, dtype=int)\n",
+         new="    shifts = np.array(time_shifts / sig.dt, dtype=int)\n",
+         why="reverts fix C19-F1: list / tuple time shifts raise TypeError"),
+    dict(id="c19-revert-F2-reduction-forms", prop="C19", file="eqsig/surface.py", count=2,
+         old="    if hasattr(up_red, '__len__') or hasattr(down_red, '__len__'):  # lists, or one array and one scalar\n        up_red = np.asarray(up_red) * np.ones(len(travel_times))\n        down_red = np.asarray(down_red) * np.ones(len(travel_times))\n",
+         new="",
+         why="reverts fix C19-F2: list reductions and array + scalar mixtures raise TypeError"),
+    dict(id="c19-revert-F2-motions-only", prop="C19", file="eqsig/surface.py",
+         old="    if hasattr(up_red, '__len__') or hasattr(down_red, '__len__'):  # lists, or one array and one scalar\n        up_red = np.asarray(up_red) * np.ones(len(travel_times))\n        down_red = np.asarray(down_red) * np.ones(len(travel_times))\n    if hasattr(up_red, '__len__'):\n        up_wave = up_wave[np.newaxis, :] * up_red[:, np.newaxis]  # 1d\n        down_waves *= down_red[:, np.newaxis]\n    else:\n        up_wave = up_wave * up_red  # 1d  # TODO: may need to increase dimensions here\n        down_waves *= down_red\n    if nodal:\n        acc_series = - down_waves + up_wave\n    else:\n        acc_series = down_waves + up_wave\n    acc_series = trim",
+         new="    if hasattr(up_red, '__len__'):\n        up_wave = up_wave[np.newaxis, :] * up_red[:, np.newaxis]  # 1d\n        down_waves *= down_red[:, np.newaxis]\n    else:\n        up_wave = up_wave * up_red  # 1d  # TODO: may need to increase dimensions here\n        down_waves *= down_red\n    if nodal:\n        acc_series = - down_waves + up_wave\n    else:\n        acc_series = down_waves + up_wave\n    acc_series = trim",
+         why="reverts fix C19-F2 in get_time_shift_motions only"),
+]
